@@ -2,7 +2,7 @@
    (ErrRange.kf_range_end_in_char, ErrRange.kf_range_start_in_char).  The only fact about UTF-8 that is needed:
    a continuation byte never follows an ASCII byte (cont_ok), which every valid UTF-8 text satisfies. *)
 From Coq Require Import ZifyBool ZifyNat ZifyN.
-From Cddl Require Import Base.Bytes Pos.Span Pos.SpanProofs Pos.ErrRange Pos.ErrRangeProofs.
+From Cddl Require Import Base.Bytes Base.Utf8 Pos.Span Pos.SpanProofs Pos.ErrRange Pos.ErrRangeProofs.
 Open Scope N_scope.
 Arguments N.add : simpl never.
 Arguments N.mul : simpl never.
@@ -11,15 +11,6 @@ Arguments N.pred : simpl never.
 Arguments N.eqb : simpl never.
 Arguments N.leb : simpl never.
 Arguments N.ltb : simpl never.
-
-Fixpoint cont_ok (bs : list N) : bool :=
-  match bs with
-  | [] => true
-  | b :: r => match r with
-              | [] => true
-              | b2 :: _ => (negb (is_cont b2) || (128 <=? b)) && cont_ok r
-              end
-  end.
 
 (* ---------- small facts ---------- *)
 Lemma tok_char_ascii : forall b, tok_char b = true -> b < 128.
@@ -47,7 +38,7 @@ Proof.
   induction l as [| x l IH]; intros i j.
   - cbn [skipnN]. destruct j; reflexivity.
   - destruct (N.eqb_spec i 0) as [E | E].
-    + subst. rewrite skipnN_0. f_equal. lia.
+    + subst. rewrite skipnN_0. reflexivity.
     + rewrite !skipnN_cons by lia. replace (i + j - 1) with (i - 1 + j) by lia. apply IH.
 Qed.
 
@@ -221,8 +212,9 @@ Proof.
       assert (Lpos : lenN (x :: back') - 1 = lenN back') by (rewrite lenN_cons; lia).
       (* scan_token_start returns pos itself when bytes[pos] is not a token byte *)
       pose proof (take_drop_while N skipped (rev (firstnN index bs))) as TD. rewrite D in TD.
-      pose proof (rev_cons_split _ _ x back' (eq_sym TD)) as HP.
-      assert (S1 : skipnN (lenN back') bs = x :: rev (take_while skipped (rev (firstnN index bs))) ++ skipnN index bs).
+      set (sk := take_while skipped (rev (firstnN index bs))) in *.
+      pose proof (rev_cons_split _ sk x back' (eq_sym TD)) as HP.
+      assert (S1 : skipnN (lenN back') bs = x :: rev sk ++ skipnN index bs).
       { rewrite <- (firstnN_skipnN N bs index) at 1. rewrite HP. rewrite <- app_assoc. cbn [app].
         rewrite <- (lenN_rev N back'). rewrite skipnN_app_len. reflexivity. }
       rewrite Lpos in K2. unfold scan_token_start in K2. rewrite S1, TC in K2.
@@ -231,8 +223,63 @@ Proof.
       rewrite N.eqb_refl in K2. cbn [andb] in K2. exact K2.
 Qed.
 
-(* every valid UTF-8 text satisfies the hypothesis; checked here on the witnesses *)
-Example cont_ok_examples :
-  cont_ok [97; 32; 61; 32; 195; 169] = true /\ cont_ok [97; 32; 61; 32; 59; 32; 195; 169; 10] = true
-  /\ cont_ok [97; 169] = false.
+(* ---------- every valid UTF-8 text satisfies cont_ok ---------- *)
+Lemma cont_ok_hi : forall x r, 128 <= x -> cont_ok r = true -> cont_ok (x :: r) = true.
+Proof.
+  intros x r Hx Hr. destruct r as [| y r']; [reflexivity |].
+  change (cont_ok (x :: y :: r')) with ((negb (is_cont y) || (128 <=? x)) && cont_ok (y :: r')).
+  rewrite Hr. destruct (is_cont y); cbn [negb orb andb]; lia.
+Qed.
+Lemma cont_ok_lo : forall x r, cont_ok r = true ->
+  match r with y :: _ => is_cont y = false | [] => True end -> cont_ok (x :: r) = true.
+Proof.
+  intros x r Hr Hh. destruct r as [| y r']; [reflexivity |].
+  change (cont_ok (x :: y :: r')) with ((negb (is_cont y) || (128 <=? x)) && cont_ok (y :: r')).
+  rewrite Hr, Hh. reflexivity.
+Qed.
+
+Lemma utf8_valid_fuel_cont_ok : forall f bs, utf8_valid_fuel f bs = true ->
+  cont_ok bs = true /\ match bs with b :: _ => is_cont b = false | [] => True end.
+Proof.
+  induction f as [| f IH]; intros bs H; [discriminate |].
+  cbn [utf8_valid_fuel] in H. destruct bs as [| b0 r]; [split; [reflexivity | exact I] |].
+  destruct (b0 <? 128) eqn:A.
+  { destruct (IH r H) as [C Hd]. split; [apply cont_ok_lo; assumption | unfold is_cont; lia]. }
+  destruct ((194 <=? b0) && (b0 <=? 223)) eqn:B2.
+  { destruct r as [| b1 r']; [discriminate |]. apply andb_prop in H as [H1 H2].
+    destruct (IH r' H2) as [C _]. unfold cont in H1. split; [| unfold is_cont; lia].
+    apply cont_ok_hi; [lia |]. apply cont_ok_hi; [lia | exact C]. }
+  destruct ((224 <=? b0) && (b0 <=? 239)) eqn:B3.
+  { destruct r as [| b1 [| b2 r']]; try discriminate.
+    apply andb_prop in H as [H12 H3]. apply andb_prop in H12 as [H1 H2].
+    destruct (IH r' H3) as [C _]. unfold cont in *. split; [| unfold is_cont; lia].
+    assert (128 <= b1) by (destruct (b0 =? 224); [lia | destruct (b0 =? 237); lia]).
+    apply cont_ok_hi; [lia |]. apply cont_ok_hi; [lia |]. apply cont_ok_hi; [lia | exact C]. }
+  destruct ((240 <=? b0) && (b0 <=? 244)) eqn:B4; [| discriminate].
+  destruct r as [| b1 [| b2 [| b3 r']]]; try discriminate.
+  apply andb_prop in H as [H123 H4]. apply andb_prop in H123 as [H12 H3]. apply andb_prop in H12 as [H1 H2].
+  destruct (IH r' H4) as [C _]. unfold cont in *. split; [| unfold is_cont; lia].
+  assert (128 <= b1) by (destruct (b0 =? 240); [lia | destruct (b0 =? 244); lia]).
+  apply cont_ok_hi; [lia |]. apply cont_ok_hi; [lia |]. apply cont_ok_hi; [lia |]. apply cont_ok_hi; [lia | exact C].
+Qed.
+
+Lemma utf8_valid_cont_ok : forall bs, utf8_valid bs = true -> cont_ok bs = true.
+Proof. intros bs H. apply (utf8_valid_fuel_cont_ok _ bs H). Qed.
+
+(* THE PARTIAL THEOREM at its strongest: the full statement with exactly the two classified classes excluded *)
+Theorem err_range_on_char_boundary_unless_classified : forall bs index,
+  utf8_valid bs = true -> index <= lenN bs -> char_boundary bs index = true ->
+  kf_range_end_in_char bs index = false -> kf_range_start_in_char bs index = false ->
+  char_boundary bs (fst (compute_error_range index bs)) = true
+  /\ char_boundary bs (snd (compute_error_range index bs)) = true.
+Proof.
+  intros bs index Hv. apply err_range_on_char_boundary_unless_kf. apply utf8_valid_cont_ok. exact Hv.
+Qed.
+
+(* non-vacuity: a backward case over CRLF and a multi-byte comment that is not in a defect class *)
+Example unless_classified_example :
+  let bs := [97; 32; 61; 32; 120; 32; 59; 32; 195; 169; 13; 10; 32; 47] in
+  utf8_valid bs = true /\ char_boundary bs 14 = true
+  /\ kf_range_end_in_char bs 14 = false /\ kf_range_start_in_char bs 14 = false
+  /\ compute_error_range 14 bs = (13, 14).
 Proof. vm_compute. auto. Qed.
